@@ -7,7 +7,8 @@ print("""You are one of several engineers building machine-checked (Lean 4) veri
 existing framework in /verif. Your job: build the complete check for propert%s %s.
 
 START by reading, in this order: /verif/HOWTO.md (the rules and file layout — follow them exactly), then the worked example
-(props/C32.py, harness/c32.cc, translate/html_quote.py, lean/SquidModel/Html/*.lean, lean/SquidModel/Properties/C32.lean, lean/Driver/C32.lean),
+(props/C32.py, harness/c32.cc, translate/html_quote.py, lean/SquidModel/Html/*.lean, lean/SquidModel/Properties/C32.lean, lean/Driver/C32.lean;
+for end-to-end properties also props/C63.py, e2e/rig.py, lean/SquidModel/Fwd/*.lean, lean/SquidModel/Properties/C63.lean, lean/Driver/C63.lean),
 then lib/vf/run.py and lib/vf/stage.py (how your spec is called), then the design entry for your property in /verif/DESIGN.md
 (grep -n '\\*\\*%s' /verif/DESIGN.md ; also section 8 'Defects found while reading' and /verif/notes/candidates.md for suspected defects in
 your area), then the anchored squid source files themselves. The property text is given and fixed:
